@@ -47,8 +47,8 @@ package storage
 
 // ---- C13: reservoir storage water balance ----
 // The adaptive sub-step loop keeps
-//   volume = V0 + inflow*elapsed - outflowVolume + 0.001*(rainAcc - evapAcc)
-// (rain/evaporation accumulators in mm*m^2), volume >= 0 and 0 <= timeRemaining <= deltaT.
+//   volume = V0 + inflow*elapsed - outflowVolume + (rainAcc - evapAcc)
+// (rain/evaporation accumulators in m^3), volume >= 0 and 0 <= timeRemaining <= deltaT.
 
 //@ func storageWaterBalance(rainfallTS, petTS, inflowTS, demandTS, targetMinimumVolume, targetMinimumCapacity, initialVolume, initialLevel, initialArea, deltaT, nLVA, levels, volumes, areas, minRelease, maxRelease, volumeTS, outflowTS, rainfallVolume, evaporationVolume) returns (volume, level, area)
 //@   noalias
@@ -67,7 +67,17 @@ package storage
 //@   loop 0 step [C13.volume-out] volumeTS.at(i) == post(volume) && volumeTS.at(i) >= 0
 //@   loop 1 invariant 0 <= timeRemaining && timeRemaining <= deltaT && subtimestep > 0
 //@   loop 1 invariant volume >= 0
-//@   loop 1 invariant [C13.substep-balance] volume == pre(volume) + inflow*(deltaT - timeRemaining) - outflowVolume + 0.001*(rainfallVolForTimestep - evaporationVolForTimestep)
+//@   loop 1 invariant [C13.substep-balance] volume == pre(volume) + inflow*(deltaT - timeRemaining) - outflowVolume + (rainfallVolForTimestep - evaporationVolForTimestep)
 //@   loop 2 invariant 0 < subtimestep && subtimestep <= timeRemaining
 //@   loop 2 invariant rainfallVolForTimestep == pre(rainfallVolForTimestep) && evaporationVolForTimestep == pre(evaporationVolForTimestep)
-//@   ensures [C13.final-level-area] implies(volumeTS.len >= 0, level == cappedPiecewise(volume, levels) && area == cappedPiecewise(volume, areas))
+//@   loop 1 step [C13.spill-only-above-full-supply] post(outflowVolume) - pre(outflowVolume) - avgOutflow*(pre(timeRemaining) - post(timeRemaining)) >= 0 && implies(post(outflowVolume) - pre(outflowVolume) - avgOutflow*(pre(timeRemaining) - post(timeRemaining)) > 0, post(volume) >= volCurveMax)
+//@   ensures [C13.final-level-capped] implies(volume < volumes.at(0), level == levels.at(0) && area == areas.at(0)) && implies(volume > volumes.at(nLVA-1), level == levels.at(nLVA-1) && area == areas.at(nLVA-1))
+//@   ensures [C13.final-level-table] implies(volumes.at(0) <= volume && volume <= volumes.at(nLVA-1), forall(k, 0, nLVA-1, implies(volumes.at(k) <= volume && volume <= volumes.at(k+1), level*(volumes.at(k+1)-volumes.at(k)) == levels.at(k)*(volumes.at(k+1)-volumes.at(k)) + (volume-volumes.at(k))*(levels.at(k+1)-levels.at(k)))))
+//@   ensures [C13.final-area-table] implies(volumes.at(0) <= volume && volume <= volumes.at(nLVA-1), forall(k, 0, nLVA-1, implies(volumes.at(k) <= volume && volume <= volumes.at(k+1), area*(volumes.at(k+1)-volumes.at(k)) == areas.at(k)*(volumes.at(k+1)-volumes.at(k)) + (volume-volumes.at(k))*(areas.at(k+1)-areas.at(k)))))
+
+// the release rule (closure releaseRate): the demand, limited to the band between
+// the minimum and maximum release curves at the given volume
+//@ func storageWaterBalance$2(demand, vol) returns (r)
+//@   ensures [C13.release-rule] r == ite(demand < cappedPiecewise(vol, minRelease), cappedPiecewise(vol, minRelease), ite(demand > cappedPiecewise(vol, maxRelease), cappedPiecewise(vol, maxRelease), demand))
+//@   ensures [C13.release-between-curves] implies(cappedPiecewise(vol, minRelease) <= cappedPiecewise(vol, maxRelease), cappedPiecewise(vol, minRelease) <= r && r <= cappedPiecewise(vol, maxRelease))
+//@   ensures [C13.release-meets-demand] implies(cappedPiecewise(vol, minRelease) <= demand && demand <= cappedPiecewise(vol, maxRelease), r == demand)
